@@ -39,10 +39,14 @@ def s_return(ctx):
         v.fields.update(name=f"in{j}", ghost_node=None, ghost_var=None)
         inputs.append(v)
     local = I.call(I.getattr(self, "_emit"), [["loc"], "Op", []])
+    # a value computed in an ENCLOSING function (the function under translation is a nested @graph function): not an input of any
+    # graph, and not produced by a node of this graph
+    outer = SObj(ir.Value, "outer_val")
+    outer.fields.update(name="outer_val", ghost_node=None, ghost_var=None)
 
     def is_input(v):
         return any(v is x for x in inputs)
-    for v in inputs + [local]:
+    for v in inputs + [local, outer]:
         def igi(v=v):
             raise AssertionError
         I.models[igi] = lambda interp, v=v: is_input(v)
@@ -56,12 +60,14 @@ def s_return(ctx):
     choices = []
 
     def m_translate_expr(interp, slf, node, target=None):
-        k = ctx.choose(4, "returned expression denotes")
+        k = ctx.choose(5, "returned expression denotes")
         choices.append(k)
         if k < 2:
             return inputs[k]
         if k == 2:
             return local
+        if k == 4:
+            return outer
         name = interp.call(interp.getattr(slf, "_generate_unique_name"), [target or "tmp"])
         v = interp.call(interp.getattr(slf, "_emit"), [[name], "Expr", []])
 
@@ -137,7 +143,7 @@ SCENARIOS = [
     Scenario("C02.converter.return", s_return,
              F("Converter._translate_return_stmt", "Converter._translate_return_stmt.ret", "Converter._translate_return_stmt.check_num_outputs",
                "Converter._emit_copy", "Converter._lookup"),
-             kind="bounded", bound="at most 3 returned expressions, each denoting one of two graph inputs, one local value or a fresh value (all aliasing patterns)"),
+             kind="bounded", bound="at most 3 returned expressions, each denoting one of two graph inputs, one local value, a value of an enclosing function or a fresh value (all aliasing patterns)"),
     Scenario("C02.converter.stmt_dispatch", s_stmt_dispatch, F("Converter._translate_stmt"),
              trusted=["Converter._message builds the message from the source position (sourceinfo)"]),
 ]
